@@ -6,6 +6,7 @@ numerals and `int()`, `strip`, the line reader), `Lemmas/FwDialogueRoundtrip.lea
 each kind), `Lemmas/FwDialoguePlan.lean` (the whole dialogue), `Lemmas/FwDialogueTrunc.lean`.
 -/
 import SshuttleModel.Lemmas.FwDialogueTrunc
+import SshuttleModel.Lemmas.FwDialogueHostMap
 
 namespace Sshuttle.FwDialogue
 
@@ -103,6 +104,32 @@ theorem C13_sethostip_domain (name ip : Bytes) :
     (∃ l, renderHost name ip = some l) ↔ (name.all isNameByte = true ∧ ip.all isIpByte = true) := by
   unfold renderHost
   by_cases h1 : name.all isNameByte = true <;> by_cases h2 : ip.all isIpByte = true <;> simp [h1, h2]
+
+/-- **Histories of updates: the last writer wins.** For every history of host updates over the
+allowed alphabet — any length, names repeated in any pattern (A,B,A; A,A; interleaved names) —
+written by `sethostip` one after the other, the host map the helper holds at the end gives, for
+every name, exactly the last address announced for it (and nothing for a name never announced). -/
+theorem C13_hostmap_last_writer (hosts : List (Bytes × Bytes)) (hh : ∀ h ∈ hosts, HostOk h) (n : Str) :
+    ∃ hl, hosts.mapM (fun h => renderHost h.1 h.2) = some hl ∧
+      mapLookup (hostmapOf (hostLoop (rawLines Gen.C13.READLINE_MAX hl.flatten)).1) n = lastFor hosts n := by
+  refine ⟨hostLines hosts, ?_, ?_⟩
+  · induction hosts with
+    | nil => rfl
+    | cons h hs ih =>
+      have := ih (fun x hx => hh x (by simp [hx]))
+      simp only [List.mapM_cons, renderHost_ok h (hh h (by simp)), this, hostLines, List.map_cons]
+      rfl
+  · have := rawLines_lines Gen.C13.READLINE_MAX C13_pin_readline.1 (hostLines hosts) []
+      (hostLines_isLine hosts hh) (by simp)
+    simp only [List.append_nil, if_true] at this
+    rw [this, hostLines, hostLoop_hosts hosts hh]
+    unfold hostmapOf
+    rw [mapLookup_fold]
+    simp [mapLookup_nil]
+
+example : lastFor [([104], [49]), ([104], [50]), ([104], [49])] [104] = some [49] ∧
+    mapLookup (hostmapOf [([104], [49]), ([104], [50]), ([104], [49])]) [104] = some [49] := by
+  decide   -- h: 1, 2, 1  ->  1
 
 /-- What the repair changed: with every `readline(128)` piece taken for a line (the helper
 before `proposed_fixes/C13-helper-joins-line-pieces.diff`), a 120-character name with the address
